@@ -38,6 +38,11 @@ def run(chk):
                                                                  "utilLo": 0.3, "utilHi": 1.2, "maxMovable": 10}),
         dict(flavour="rel", scen="leg", runs=(400, 10000), opts={"cb": 0, "singleRowOnly": 1, "turned": 0, "wideOrdering": 0, "scaleShift": 14}),
     ]
+    plan += [
+        # constructed legal placements with turned unrestricted cells and all four polarities on single-row cells
+        dict(flavour="rel", scen="legc", runs=(600, 15000), opts={"cb": 0, "singleRowOnly": 1, "turned": 1, "wideOrdering": 0, "varyScale": 8,
+                                                                 "utilLo": 0.4, "utilHi": 1.3, "maxMovable": 12}),
+    ]
     if not chk.quick:
         small_scope(chk, "C11", lambda ch, runs: [ch.count() for _ in runs])
     run_plan(chk, "C11", plan, nontrivial)
